@@ -117,12 +117,12 @@ def report(rep, res, what):
         c = res["by_id"][cid]
         rep.violation(f"vm-trace-rejected {cid}",
                       f"{what}: the real interpreter's execution is not a behaviour of the value machine MSVMV: event #{s['l']} {s['event']}; machine at {s['top']} frames={s['fd']} activations={s['ad']} status={s['st']} {s['why']}",
-                      dict(case=cid, verdict=s, files={"main.ms": c["src"]}, how="record MSCRIPT_VERIF_TRACE + MSCRIPT_VERIF_DUMP of `mscript run main.ms -q`, validate with spec/TraceVMV.tla"))
+                      dict(case=cid, verdict=s, vm=True, prog=c["prog"], files=c.get("files") or {"main.ms": c["src"]}, how="record MSCRIPT_VERIF_TRACE + MSCRIPT_VERIF_DUMP of `mscript run main.ms -q`, validate with spec/TraceVMV.tla"))
     for cid, x in res["xlate"].items():
         c = res["by_id"][cid]
         rep.violation(f"xlate {cid}",
                       f"{what}: the compiled code, executed by the value machine, prints {x['vm_out']} ({x['st']} {x['why']}) but the source semantics prescribes {x['src_out']} ({x['src_status']})",
-                      dict(case=cid, verdict=x, files={"main.ms": c["src"]}, how="compile, dump (MSCRIPT_VERIF_DUMP), run spec/MSVMV.tla on the dump and MSLang!Run on the AST"))
+                      dict(case=cid, verdict=x, vm=True, prog=c["prog"], files=c.get("files") or {"main.ms": c["src"]}, how="compile, dump (MSCRIPT_VERIF_DUMP), run spec/MSVMV.tla on the dump and MSLang!Run on the AST"))
     return dict(vm_traces_sampled=res["sampled"], vm_traces_validated=res["recorded"], vm_traces_accepted=len(res["accepted"]),
                 vm_out_of_model=len(res["oom"]), vm_out_of_model_reasons=sorted({o["why"] for o in res["oom"].values()})[:12],
                 vm_not_recorded=len(res["skipped"]), vm_events=res["events"], vm_opcodes_exercised=res["ops"],
